@@ -3,7 +3,7 @@
    `eval fuel st cur e` is the reference interpreter (Lang/Eval.v): st = all frames + printed
    output, cur = the current frame; results are (state, Val v | Sig s | OutOfFuel). *)
 From Coq Require Import ZArith String List Bool.
-From NV Require Import Lang.Syntax Lang.Eval Lang.Eval_proofs Lang.Eval_rules.
+From NV Require Import Lang.Syntax Lang.Eval Lang.Eval_proofs Lang.Eval_rules Lang.Eval_params.
 Import ListNotations.
 Open Scope string_scope.
 Open Scope list_scope.
@@ -340,6 +340,43 @@ Theorem C05_into_first : forall n st cur x le b (ef : val -> val) xs,
 Proof. exact into_first. Qed.
 Print Assumptions C05_into_first.
 
+(* parameter binding of a closure call (`rec` is the interpreter used for default expressions;
+   fr is the call's fresh frame). Plain parameters: exactly as many arguments, left to right *)
+Theorem C05_bind_plain : forall rec st fr xs args,
+  bind_params rec st fr (plain xs) args =
+  if Nat.eqb (List.length xs) (List.length args) then declare_all st fr (combine xs args) else throw_err st.
+Proof. exact bind_plain. Qed.
+Print Assumptions C05_bind_plain.
+
+(* a trailing default: evaluated in the fresh frame before any parameter is declared, only when
+   its argument is missing; any other argument count is an error *)
+Theorem C05_bind_default : forall rec st fr xs y d args,
+  (List.length args = List.length xs ->
+     bind_params rec st fr (plain xs ++ [(KPlain, y, Some d)]) args =
+     bindR (rec st fr d) (fun st1 dv => declare_all st1 fr (combine (xs ++ [y]) (args ++ [dv])))) /\
+  (List.length args = S (List.length xs) ->
+     bind_params rec st fr (plain xs ++ [(KPlain, y, Some d)]) args =
+     declare_all st fr (combine (xs ++ [y]) args)) /\
+  (List.length args < List.length xs \/ S (List.length xs) < List.length args ->
+     bind_params rec st fr (plain xs ++ [(KPlain, y, Some d)]) args = throw_err st).
+Proof. exact bind_default. Qed.
+Print Assumptions C05_bind_default.
+
+(* one splat: first arguments to the parameters before it, last ones to those after it, the
+   (possibly empty) rest as a list to the splat; too few arguments is an error *)
+Theorem C05_bind_splat : forall rec st fr xs s ys a1 mid a2,
+  List.length a1 = List.length xs -> List.length a2 = List.length ys ->
+  bind_params rec st fr (plain xs ++ [(KSplat, s, None)] ++ plain ys) (a1 ++ mid ++ a2) =
+  declare_all st fr (combine xs a1 ++ [(s, VList mid)] ++ combine ys a2).
+Proof. exact bind_splat. Qed.
+Print Assumptions C05_bind_splat.
+
+Theorem C05_bind_splat_too_few : forall rec st fr xs s ys args,
+  List.length args < List.length xs + List.length ys ->
+  bind_params rec st fr (plain xs ++ [(KSplat, s, None)] ++ plain ys) args = throw_err st.
+Proof. exact bind_splat_too_few. Qed.
+Print Assumptions C05_bind_splat_too_few.
+
 (* non-vacuity: a loop variable and a variable declared in the body are gone after the loop,
    the outer x is still 1 *)
 Example C05_example_scopes :
@@ -428,4 +465,18 @@ Example C05_example_rules :
                        (false, EFor [CIter "x" l] (FYieldInto (EVar "x") RLast));
                        (false, EFor [CIter "x" l] (FYieldInto (ESeq [EPrim PPrint [EVar "x"]; EVar "x"] false) RFirst))])))
   = Val (VList [VNull; VInt 7; VList [VInt 10]; VStr "s"; VList [VInt 10; VInt 30]; VInt 6; VInt 2; VInt 3; VInt 1]).
+Proof. reflexivity. Qed.
+
+(* defaults see the closure's scope, not earlier parameters; splats take the middle *)
+Example C05_example_params :
+  snd (run 20 (ESeq [EDecl "p" (EInt 100);
+                     EDecl "f" (ELam [(KPlain, "p", None); (KPlain, "q", Some (EPrim PAdd [EVar "p"; EInt 1]))] (EList [(false, EVar "p"); (false, EVar "q")]));
+                     EDecl "g" (ELam [(KPlain, "a", None); (KSplat, "m", None); (KPlain, "z", None)] (EList [(false, EVar "a"); (false, EVar "m"); (false, EVar "z")]));
+                     EList [(false, ECall (EVar "f") [(false, EInt 1)]);
+                            (false, ECall (EVar "f") [(false, EInt 1); (false, EInt 2)]);
+                            (false, ECall (EVar "g") [(false, EInt 1); (false, EInt 2)]);
+                            (false, ECall (EVar "g") [(false, EInt 1); (false, EInt 2); (false, EInt 3); (false, EInt 4)]);
+                            (false, ETry (ECall (EVar "g") [(false, EInt 1)]) "e" (EInt 0))]] false))
+  = Val (VList [VList [VInt 1; VInt 101]; VList [VInt 1; VInt 2]; VList [VInt 1; VList []; VInt 2];
+                VList [VInt 1; VList [VInt 2; VInt 3]; VInt 4]; VInt 0]).
 Proof. reflexivity. Qed.
